@@ -37,10 +37,14 @@ struct Chain {
 fn build_chain(xot: &mut Xot, i: &Ids, cfgs: usize, with_c2: bool) -> Chain {
     let c0 = sym::choose("c0", cfgs);
     let c1 = sym::choose("c1", cfgs);
-    let c2 = if with_c2 { sym::choose("c2", cfgs) } else { 0 };
+    let c2 = if with_c2 { sym::choose("c2", sym::param("CFG2", cfgs)) } else { 0 };
     let pick = |k: usize| [i.none, i.a, i.b][k];
     let nsk = sym::param("NSK", 3);
-    let ns = [pick(sym::choose("ns0", nsk)), pick(sym::choose("ns1", nsk)), pick(sym::choose("ns2", nsk))];
+    let k0 = sym::choose("ns0", nsk);
+    let k1 = sym::choose("ns1", nsk);
+    // SAMEINNER: both inner elements in the same namespace (halves the layouts of the quick tier)
+    let k2 = if sym::param("SAMEINNER", 0) == 1 { k1 } else { sym::choose("ns2", nsk) };
+    let ns = [pick(k0), pick(k1), pick(k2)];
     let at_ns = [i.none, i.a][sym::choose("nsa", 2)];
     let n0 = xot.add_name_ns("r", ns[0]);
     let n1 = xot.add_name_ns("e", ns[1]);
@@ -171,6 +175,55 @@ pub fn h_c15_dedup() {
     let before = canon(&xot, ch.doc);
     let before_str = xot.to_string(ch.doc);
     sym::class("KF-no-namespace-element-under-default-namespace", default_capture(&i, &xot, &ch, 0));
+    // known defect: the element whose attribute needs a prefixed binding declares that namespace
+    // as default namespace *and* under a prefix; both declarations are judged redundant
+    // all declarations along the path, outermost first
+    let mut path: Vec<Vec<(PrefixId, NamespaceId)>> = ch.chain.clone();
+    path.push(match c3 {
+        1 => vec![(i.q, i.a)],
+        2 => vec![(i.empty, i.a), (i.q, i.a)],
+        _ => vec![],
+    });
+    // the prefixed declaration the attribute (namespace A) relies on: the nearest one
+    let mut level_p: Option<usize> = None;
+    for (k, ds) in path.iter().enumerate() {
+        if ds.iter().any(|(p, n)| *p != i.empty && *n == i.a) {
+            level_p = Some(k);
+        }
+    }
+    // known defect 1: A is also declared as default namespace at or below that element: the
+    // attribute marks the wrong tracker entry and the prefixed declaration is judged redundant
+    let default_at_or_below = match level_p {
+        Some(lp) => path.iter().enumerate().any(|(k, ds)| k >= lp && ds.iter().any(|(p, n)| *p == i.empty && *n == i.a)),
+        None => false,
+    };
+    // the same for the attribute on the third element (when it is in namespace A)
+    let mut default_at_or_below2 = false;
+    if ch.at_ns == i.a {
+        let mut lp2: Option<usize> = None;
+        for (k, ds) in path[..3].iter().enumerate() {
+            if ds.iter().any(|(p, n)| *p != i.empty && *n == i.a) {
+                lp2 = Some(k);
+            }
+        }
+        if let Some(lp) = lp2 {
+            default_at_or_below2 = path[..3].iter().enumerate().any(|(k, ds)| k >= lp && ds.iter().any(|(p, n)| *p == i.empty && *n == i.a));
+        }
+    }
+    sym::class("KF-C15-own-default-and-prefixed-declaration-both-removed", default_at_or_below || default_at_or_below2);
+    // known defect 2: a prefix is re-declared with another namespace further down: a declaration
+    // that looked redundant because of that prefix is removed although descendants cannot use it
+    let mut shadowing = false;
+    for (k, ds) in path.iter().enumerate() {
+        for (p, n) in ds {
+            for ds2 in path[k + 1..].iter() {
+                if *p != i.empty && ds2.iter().any(|(p2, n2)| p2 == p && n2 != n) {
+                    shadowing = true;
+                }
+            }
+        }
+    }
+    sym::class("KF-C15-declaration-removed-although-descendant-shadows-the-other-prefix", shadowing);
     xot.deduplicate_namespaces(ch.doc);
     for (k, e) in all.iter().enumerate() {
         let after = decls(&xot, *e);
@@ -199,6 +252,17 @@ pub fn h_c15_dedup() {
         }
     }
     let once: Vec<Vec<(String, String)>> = all.iter().map(|e| decls(&xot, *e)).collect();
+    // known defect: once the first pass has removed a default-namespace declaration, a prefixed
+    // declaration that was only kept because of it becomes removable in a second pass
+    let mut default_removed = false;
+    for k in 0..all.len() {
+        for d in &before_decls[k] {
+            if d.0.is_empty() && !once[k].contains(d) {
+                default_removed = true;
+            }
+        }
+    }
+    sym::class("KF-C15-second-pass-after-default-declaration-removed", default_removed);
     xot.deduplicate_namespaces(ch.doc);
     let twice: Vec<Vec<(String, String)>> = all.iter().map(|e| decls(&xot, *e)).collect();
     sym::check("second-call-removes-nothing", once == twice);
